@@ -58,6 +58,9 @@ pub enum Scenario {
     EarlyDrop { kind: u8, read_some: bool },
     /// the peer reads the request head, then closes in the middle of a large upload, long before T: the error is not a time-out
     UploadClosed { close_after_ms: u16 },
+    /// a redirect chain of `hops` hops, each answered after `delay_ms`, that fits comfortably into T = `t_ms`: it completes, and
+    /// nothing is reported as timed out on the way
+    QuickChain { hops: u8, delay_ms: u16 },
 }
 
 #[derive(Debug, Clone, Serialize, Deserialize, PartialEq, Eq, Hash)]
@@ -192,7 +195,13 @@ fn client_part(case: &Case, url: &str, upload: bool, t0: Instant, obs: &mut Obse
         let mut rb = attohttpc::post(url).proxy_settings(proxy).danger_accept_invalid_certs(true).read_timeout(Duration::from_millis(case.r_ms as u64)).connect_timeout(Duration::from_secs(5)).max_redirections(100);
         if case.t_ms > 0 {
             // t_ms == 1 stands for a budget that is gone before the connection exists (1 ns)
-            rb = rb.timeout(if case.t_ms == 1 { Duration::from_nanos(1) } else { Duration::from_millis(case.t_ms as u64) });
+            // t_ms == 65535 / 65534 stand for budgets of 2^32 s and 2^32 ms + 150 ms: very long, and just as real as any other
+            rb = rb.timeout(match case.t_ms {
+                1 => Duration::from_nanos(1),
+                65535 => Duration::from_secs(1 << 32),
+                65534 => Duration::from_millis((1u64 << 32) + 150),
+                t => Duration::from_millis(t as u64),
+            });
         }
         let res = if upload {
             rb.bytes(vec![0x55u8; 24 << 20]).send()
@@ -441,6 +450,54 @@ fn check_early_drop(kind: u8, read_some: bool, ctx: &mut Ctx) -> Outcome {
     last.unwrap()
 }
 
+/// See Scenario::QuickChain. The chain needs hops * delay_ms plus connection set-up; T leaves at least 400 ms on top of that.
+fn check_quick_chain(hops: u8, delay_ms: u16, t_ms: u16, ctx: &mut Ctx) -> Outcome {
+    ctx.nontrivial = true;
+    ctx.label("redirect-chain-that-fits-into-T");
+    let mut last: Option<Outcome> = None;
+    for _attempt in 0..3 {
+        let hop = vec![Step::ReadRequest, Step::SleepMs(delay_ms as u64), Step::Send(b"HTTP/1.1 307 Next\r\nLocation: /next\r\nContent-Length: 0\r\n\r\n".to_vec()), Step::Close];
+        let mut scripts: Vec<Vec<Step>> = (0..hops).map(|_| hop.clone()).collect();
+        scripts.push(vec![Step::ReadRequest, Step::SleepMs(delay_ms as u64), Step::Send(b"HTTP/1.1 200 OK\r\nContent-Length: 4\r\n\r\ndone".to_vec()), Step::Close]);
+        let mut server = match script_server(scripts) {
+            Ok(s) => s,
+            Err(e) => {
+                eprintln!("C13: cannot set up the peer: {e}");
+                std::process::exit(2);
+            }
+        };
+        let t0 = Instant::now();
+        let res = attohttpc::get(format!("http://{}/start", server.addr))
+            .proxy_settings(no_proxy())
+            .timeout(Duration::from_millis(t_ms as u64))
+            .read_timeout(Duration::from_secs(5))
+            .max_redirections(50)
+            .send()
+            .and_then(|r| r.text_utf8());
+        let ms = t0.elapsed().as_millis();
+        server.finish();
+        match res {
+            Ok(b) if b == "done" => return Outcome::Pass,
+            Ok(b) => return Outcome::fail("C13:chain-wrong-body", format!("{b:?}")),
+            Err(e) => {
+                let text = format!("{e:?}");
+                // only an error well before T is judged: on a machine slow enough to spend T here the error would be genuine
+                if ms + 150 < t_ms as u128 {
+                    last = Some(Outcome::fail(
+                        "C13:completed-response-timed-out",
+                        format!("a chain of {hops} redirects, each answered after {delay_ms} ms, failed after {ms} ms with {text} although T = {t_ms} ms had not passed"),
+                    ));
+                    ctx.label("re-measured");
+                    continue;
+                }
+                ctx.label("quick-chain:machine-too-slow(accepted)");
+                return Outcome::Pass;
+            }
+        }
+    }
+    last.unwrap()
+}
+
 /// See Scenario::UploadClosed.
 fn check_upload_closed(close_after_ms: u16, ctx: &mut Ctx) -> Outcome {
     ctx.nontrivial = true;
@@ -474,7 +531,7 @@ fn run_once(case: &Case) -> Result<Observed, String> {
     let baseline = proc_counts();
     // server scripts
     let (scripts, upload): (Vec<Vec<Step>>, bool) = match &case.scenario {
-        Scenario::Successor { .. } | Scenario::EarlyDrop { .. } | Scenario::UploadClosed { .. } => unreachable!("handled by their own functions"),
+        Scenario::Successor { .. } | Scenario::EarlyDrop { .. } | Scenario::UploadClosed { .. } | Scenario::QuickChain { .. } => unreachable!("handled by their own functions"),
         Scenario::Stall { point, drip_ms } => {
             let (prompt, rest) = split_response(*point);
             let mut s = vec![];
@@ -624,7 +681,7 @@ impl Property for C13 {
     const ID: &'static str = "C13";
     const RULE: &'static str = "generated fault sequences on real loopback sockets: overall timeout T in [150, 500] ms (or unset, or 1 ms i.e. expired before the connection exists, or 2.5 s i.e. far above R), read timeout R either >> T or 100-200 ms; stall point in {server never reads a 24 MiB upload, before any reply byte, \
 inside the status line, inside a header, after the head, inside a chunk-size line, inside chunk data, between chunks, inside a length body, inside a close-delimited body}; stall kind {silent, one byte every r ms with r < R}; redirect chains whose hops \
-are individually fast but together exceed T; a silence longer than R inside the body followed by a drip faster than R with a caller that reads again after every read error that comes before T (everything still ends by T + margin); and the negative family: responses of all three framings that complete at once, followed by 0..5 further reads some of which happen after T, then drop; a successor request without any deadline sent while the watchdog thread of an earlier, overdue and dropped request is held between its decision and its action (the successor is never the one that is cut); a response dropped while the peer stalls inside the body, T and R seconds away (the drop returns at once, thread and socket are gone 300 ms later); a peer that closes 50 ms into a 24 MiB upload (the error is not a time-out). Optional schedule perturbation: delays injected at the six \
+are individually fast but together exceed T; a silence longer than R inside the body followed by a drip faster than R with a caller that reads again after every read error that comes before T (everything still ends by T + margin); and the negative family: responses of all three framings that complete at once, followed by 0..5 further reads some of which happen after T, then drop; a successor request without any deadline sent while the watchdog thread of an earlier, overdue and dropped request is held between its decision and its action (the successor is never the one that is cut); a response dropped while the peer stalls inside the body, T and R seconds away (the drop returns at once, thread and socket are gone 300 ms later); a peer that closes 50 ms into a 24 MiB upload (the error is not a time-out); budgets of 2^32 s and of 2^32 ms + 150 ms around a response that completes at once; redirect chains that fit into T with room to spare (T below one second, and T = 1.5 s of which 0.6 s are gone when the redirect arrives). Optional schedule perturbation: delays injected at the six \
 labelled points of the watchdog / reader (verif-hooks H3). Oracle S1-S4. non-trivial = the stall begins after the head, or drip-feeding, or a redirect chain, or >= 1 read after end-of-body; distinct by case";
 
     fn assumptions() -> Vec<String> {
@@ -701,6 +758,14 @@ labelled points of the watchdog / reader (verif-hooks H3). Oracle S1-S4. non-tri
                 v.push(Case { scenario: Scenario::EarlyDrop { kind, read_some }, t_ms: 3000, r_ms: 2000, reads: vec![], sched: vec![], tunnel: false, api: 0, prepared: 0 });
             }
         }
+        // budgets of 2^32 s and 2^32 ms + 150 ms around a response that completes at once
+        for t_ms in [65535u16, 65534] {
+            v.push(Case { scenario: Scenario::Complete { framing: 0, payload: 400, extra_reads: vec![(10, 0)] }, t_ms, r_ms: 5000, reads: vec![4096], sched: vec![], tunnel: false, api: 0, prepared: 0 });
+        }
+        // chains that fit into T with room to spare: sub-second budgets, and a budget of 1.5 s of which 0.7 s are used up
+        v.push(Case { scenario: Scenario::QuickChain { hops: 3, delay_ms: 40 }, t_ms: 800, r_ms: 5000, reads: vec![], sched: vec![], tunnel: false, api: 0, prepared: 0 });
+        v.push(Case { scenario: Scenario::QuickChain { hops: 1, delay_ms: 600 }, t_ms: 1500, r_ms: 5000, reads: vec![], sched: vec![], tunnel: false, api: 0, prepared: 0 });
+        v.push(Case { scenario: Scenario::QuickChain { hops: 6, delay_ms: 20 }, t_ms: 950, r_ms: 5000, reads: vec![], sched: vec![], tunnel: false, api: 0, prepared: 0 });
         v.push(Case { scenario: Scenario::UploadClosed { close_after_ms: 50 }, t_ms: 5000, r_ms: 4000, reads: vec![], sched: vec![], tunnel: false, api: 0, prepared: 0 });
         v.push(Case { scenario: Scenario::Successor { pause_ms: 400 }, t_ms: 150, r_ms: 5000, reads: vec![], sched: vec![], tunnel: false, api: 0, prepared: 0 });
         v.push(Case { scenario: Scenario::Stall { point: StallPoint::ConnectNamed, drip_ms: 0 }, t_ms: 300, r_ms: 5000, reads: vec![4096], sched: vec![], tunnel: false, api: 0, prepared: 0 });
@@ -829,6 +894,9 @@ labelled points of the watchdog / reader (verif-hooks H3). Oracle S1-S4. non-tri
         if let Scenario::UploadClosed { close_after_ms } = &case.scenario {
             return check_upload_closed(*close_after_ms, ctx);
         }
+        if let Scenario::QuickChain { hops, delay_ms } = &case.scenario {
+            return check_quick_chain(*hops, *delay_ms, case.t_ms, ctx);
+        }
         let t = case.t_ms as u128;
         let r = case.r_ms as u128;
         let sched_delay: u128 = case.sched.iter().map(|(_, d)| *d as u128).sum::<u128>() * 3;
@@ -925,7 +993,7 @@ labelled points of the watchdog / reader (verif-hooks H3). Oracle S1-S4. non-tri
                         timing_fail = Some(Outcome::fail("C13:chain-outlived-deadline", format!("{} hops were requested, at most {max_hops} fit into T; {describe}", obs.accepted)));
                     }
                 }
-                Scenario::Successor { .. } | Scenario::EarlyDrop { .. } | Scenario::UploadClosed { .. } => unreachable!("handled by their own functions"),
+                Scenario::Successor { .. } | Scenario::EarlyDrop { .. } | Scenario::UploadClosed { .. } | Scenario::QuickChain { .. } => unreachable!("handled by their own functions"),
                 Scenario::Complete { payload, extra_reads, .. } => {
                     ctx.label("complete");
                     ctx.nontrivial = !extra_reads.is_empty();
